@@ -84,6 +84,38 @@ func typeSwitchDominated(r *ssa.Return) bool {
 			}
 		}
 	}
+	// the switch may live in a helper the message is handed to: a return that
+	// follows such a call is a reaction to the message as well
+	isMsgAssert := func(in ssa.Instruction) bool {
+		ta, ok := in.(*ssa.TypeAssert)
+		if !ok {
+			return false
+		}
+		n, ok := ta.X.Type().(*types.Named)
+		return ok && n.Obj().Name() == "message"
+	}
+	for _, b := range fn.Blocks {
+		for _, in := range b.Instrs {
+			if curProg == nil {
+				continue
+			}
+			h := curProg.helperCallee(in)
+			if h == nil || !instrDominates(in, r) {
+				continue
+			}
+			found := false
+			for _, g := range deepFuncs(h) {
+				ownInstrs(g, func(x ssa.Instruction) {
+					if isMsgAssert(x) {
+						found = true
+					}
+				})
+			}
+			if found {
+				return true
+			}
+		}
+	}
 	return false
 }
 
